@@ -4,4 +4,5 @@ CONSTANTS
   AssignFamilies <- AssignQuick
 INVARIANT PropertyHolds
 INVARIANT ModelSanity
+INVARIANT StartSelfTest
 CHECK_DEADLOCK FALSE
